@@ -121,6 +121,14 @@ func main() {
 
 			// 1. sync seam
 			for _, imp := range f.Imports {
+				if imp.Path.Value == `"sync/atomic"` {
+					if imp.Name != nil && (imp.Name.Name == "_" || imp.Name.Name == ".") {
+						die("%s: unsupported sync/atomic import form", fname)
+					}
+					imp.Path.Value = strconv.Quote(simrtPath + "/atomic")
+					changed = true
+					nImports++
+				}
 				if imp.Path.Value == `"sync"` {
 					if imp.Name != nil && (imp.Name.Name == "_" || imp.Name.Name == ".") {
 						die("%s: unsupported sync import form", fname)
